@@ -27,6 +27,7 @@ P_LOAD = [
     ["evalB"],
     ["eval", "evalB", "edit", "evalB", "eval", "evalB"],
     ["eval", "evalB", "edit", "eval", "restart", "evalB", "evalB"],
+    ["eval", "edit", "eval", "revert", "eval", "evalB"],
 ]
 P_FAIL = [
     ["fail", "eval", "unfail", "eval", "eval"],
@@ -53,6 +54,10 @@ def std_variants(tier: str, noop: bool) -> List[Dict[str, Any]]:
          _v("memory", "memory", ["one", "moved"], "from", 0.34)]
     if noop:
         v.append(_v("noop", "noop", ["split"], "module", 0.2))
+    # every process of the history is a fresh interpreter with its own PYTHONHASHSEED
+    hv = _v("local", "local", ["one"], "from", 0.12)
+    hv["pristine"] = {"hashseed": "vary"}
+    v.append(hv)
     if tier == "thorough":
         for x in v:
             x["frac"] = 1.0
@@ -112,7 +117,7 @@ FAMILY: Dict[str, Dict[str, Any]] = {
         shapes=lambda tier: shp.quick_shapes(), plans=lambda tier: P_EDIT if tier == "quick" else P_EDIT_THOROUGH,
         variants=lambda tier: [_v("local", "local", ["one", "split"], "from", 0.5 if tier == "quick" else 1.0),
                                _v("local", "local+lru", ["split"], "from_as", 0.25 if tier == "quick" else 1.0)],
-        oracle=oracles.c04, loads=True, store_kw=True,
+        oracle=oracles.c04, loads=True, store_kw=True, protocol=True, repo_tests=True,
         nontrivial=lambda hist: any(len(r["served"]) > 0 for r in [x for x in hist if x["op"] == "eval"][1:]),
         rule="history as C01; every evaluation is followed by a second process loading every committed path; "
              "non-trivial when a later evaluation leaves at least one committed path to load"),
@@ -124,7 +129,7 @@ FAMILY: Dict[str, Dict[str, Any]] = {
              "evaluation executes a reader or must be rejected"),
     "C10": dict(
         shapes=lambda tier: shp.core_shapes() + shp.load_shapes()[:2], plans=lambda tier: P_FAIL,
-        variants=small_variants, oracle=oracles.c10,
+        variants=small_variants, oracle=oracles.c10, protocol=True,
         fail_classes=lambda tier: ["Exception", "KeyboardInterrupt"] + (["SystemExit", "ValueError"] if tier == "thorough" else []),
         nontrivial=lambda hist: any(r["op"] == "eval" and isinstance(r["err"], list) and r["err"][:1] == ["raise"] for r in hist),
         rule="history with one function switched to fail (every function of the shape x exception class); non-trivial "
@@ -147,7 +152,7 @@ FAMILY: Dict[str, Dict[str, Any]] = {
              "the boundary or must be refused"),
     "C15": dict(
         shapes=lambda tier: shp.core_shapes() + shp.load_shapes()[:1], plans=lambda tier: P_STAGES,
-        variants=small_variants, oracle=oracles.c15, stages=lambda tier: [1, 2, 3, 4, 5], extra=lambda rep, tier: c15_extra(rep, tier),
+        variants=small_variants, oracle=oracles.c15, protocol=True, stages=lambda tier: [1, 2, 3, 4, 5], extra=lambda rep, tier: c15_extra(rep, tier),
         nontrivial=lambda hist: any(r["op"] == "eval" and r.get("stages", 5) < 5 for r in hist),
         rule="history containing a stage-restricted dds.eval (every prefix of the stage order) before / after full "
              "evaluations; non-trivial when it contains a restricted evaluation"),
@@ -237,6 +242,7 @@ def run_family(prop: str, tier: str) -> int:
     t_budget = 70 if tier == "quick" else 1500
     t0 = time.time()
     gens: Dict[Tuple[str, Tuple[str, ...]], List[Dict[str, Any]]] = {}
+    proto_traces: List[Any] = []
     for (vi, v) in enumerate(variants):
         key = (v["spec_store"], tuple(v["layouts"]))
         if key not in gens:
@@ -263,8 +269,10 @@ def run_family(prop: str, tier: str) -> int:
             ref_checked = evalfam.reference_check(items, limit=300 if tier == "quick" else 2000)
         remaining = max(10.0, t_budget - (time.time() - t0))
         res = evalfam.replay_many(items, v["real_store"], loads=bool(fam.get("loads")), budget_s=remaining,
-                                  accept=v.get("accept"))
+                                  accept=v.get("accept"), pristine=v.get("pristine"))
         realisation = "store=%s,layouts=%s,import=%s" % (v["real_store"], "/".join(v["layouts"]), v["imp"])
+        if v.get("pristine"):
+            realisation += ",pristine-hashseed=%s" % v["pristine"].get("hashseed")
         if v.get("accept"):
             realisation += ",accept=%s+%d" % (v["accept"][0], len(v["accept"]) - 1)
         for ((shape, hist), obs) in zip(items, res):
@@ -283,6 +291,10 @@ def run_family(prop: str, tier: str) -> int:
                 rep.violation(fp, det)
             if not viols:
                 rep.add_sample(evalfam.sample_of(shape, hist, obs))
+            if fam.get("protocol") and not fam.get("loads") and len(proto_traces) < 1500:
+                from . import evalproto
+                proto_traces.append(evalproto.traces_from_replay(hist, obs, v["real_store"] == "noop",
+                                                                 volatile=v["real_store"].startswith("memory")))
     rep.cov["traces_validated_against_impl"] = total
     rep.cov["evaluations"] = total
     rep.cov["distinct_nontrivial"] = len(nontriv)
@@ -297,6 +309,24 @@ def run_family(prop: str, tier: str) -> int:
         "sha256 injective; CPython inspect/ast deterministic",
         "supported subset of DESIGN.md 4.2; non-accepted helper module _vlog is value-stable",
         "TLC explores the bounded model exhaustively (plans = %d macro-step patterns, MaxVer=%d)" % (len(plans), max_ver)]
+    if fam.get("protocol"):
+        # code -> spec: the recorded store operations of every replayed evaluation, and of the
+        # repository's own test-suite, against the evaluation protocol (spec/EvalProto.tla)
+        from . import evalproto
+        ptraces = [t for t in proto_traces if t is not None]
+        nrepo = 0
+        if fam.get("repo_tests"):
+            (rt, summary) = evalproto.record_repo_tests()
+            nrepo = len(rt)
+            ptraces += rt
+            rep.cov["repo_tests_recorded"] = summary.strip("= ")
+        (pr, rejected) = evalproto.validate(ptraces)
+        rep.cov["protocol_traces_judged_by_tlc"] = len(ptraces)
+        rep.cov["protocol_traces_from_repo_tests"] = nrepo
+        rep.cov["protocol_trace_states"] = pr.distinct
+        for rj in rejected:
+            rep.violation("%s|protocol|%s" % (prop, rj["clauses"][0][1].replace(" ", "_")),
+                          {"source": rj["test"], "clauses": rj["clauses"], "events_before": rj["events"]})
     if fam.get("extra"):
         fam["extra"](rep, tier)
     if total == 0 or len(nontriv) < 2:
